@@ -29,6 +29,8 @@ var c03Actions = []string{
 	"A.CreateIndex({m:1}) with the session's context while its transaction is open",
 	// a bulk write whose only effect is a document created by an upsert
 	"A.BulkWrite(upserting replace of a missing _id, update of a missing _id)",
+	// a second transaction on a session that has one is rejected and leaves the first alone
+	"A.WithTransaction while the session's transaction is open",
 }
 
 type c03Doc struct{ id, n int32 }
@@ -153,7 +155,7 @@ func (r *c03Runner) Step(a int) bool {
 	if r.open && (a >= 7 && a <= 12 || a == 16) {
 		return false
 	}
-	if a == 18 && !r.open {
+	if (a == 18 || a == 20) && !r.open {
 		return false
 	}
 	if a == 16 {
@@ -343,6 +345,14 @@ func (r *c03Runner) Step(a int) bool {
 	case 13:
 		w.Store.FailNext = 1
 		r.fail = true
+	case 20:
+		_, err := r.sess.WithTransaction(context.Background(), func(sc lungo.ISessionContext) (interface{}, error) {
+			_, _ = coll.InsertOne(sc, bD("_id", "inside the rejected transaction"))
+			return nil, nil
+		})
+		if err == nil {
+			r.viol("nested-transaction-accepted", "WithTransaction on a session whose transaction is open succeeded")
+		}
 	case 18:
 		// a call that needs a write transaction of its own is rejected while the session has one: it neither commits the
 		// session's transaction nor waits for the slot that transaction holds
